@@ -1,4 +1,4 @@
-import MpsVerif.Proofs.TeeLive
+import MpsVerif.Proofs.TeeFair
 /-!
 # C10 — tee forks see identical streams and cannot wedge each other
 
@@ -110,7 +110,8 @@ theorem C10_lock_released (c : Cfg) (s : State) (hr : Reachable c s) :
     `buffer_size ≥ 2` as `tee` asserts), within at most two steps the measure `mu` strictly
     decreases: some fork can take a productive step now, or it re-checks its wait-loop condition
     and then acquires the (free) source lock.  The consumer is part of the model (`call` is always
-    enabled for a fork between calls), i.e. "every fork keeps being consumed". -/
+    enabled for a fork between calls), i.e. "every fork keeps being consumed".  The timed lock
+    retries are the stutter steps (`isSpin`, `C10_measure`); fairness: `C10_fair_termination`. -/
 theorem C10_progress (c : Cfg) (s : State) (hr : Reachable c s) (hn : 0 < c.n) (hbs : 2 ≤ c.bs)
     (hnf : ¬ Final c s) :
     ∃ as s', as ≠ [] ∧ as.length ≤ 2 ∧ Core.run (step c) s as = some s' ∧ mu c s' < mu c s := by
@@ -130,11 +131,8 @@ theorem C10_measure (c : Cfg) (s : State) (hr : Reachable c s) (a : Act) (s' : S
 
 /-- Bounded work: every execution from the initial state contains at most
     `n * (40 * (len + 2) + 35)` steps that are not spin steps of the timed lock retry — whatever
-    the schedule.  Hence an infinite execution would consist, from some point on, of timed-out
-    lock retries only; by `C10_progress` a productive step (or a lock acquisition on a free lock)
-    is enabled in each such state, so under weak fairness of the scheduler (an action that stays
-    enabled is eventually taken; a timed-out acquire re-reads the loop condition and retries, it
-    never waits unboundedly) no fork blocks forever. -/
+    the schedule.  (So an infinite execution consists, from some point on, of timed-out lock
+    retries only; `C10_fair_termination` shows that no fair schedule does that.) -/
 theorem C10_terminates (c : Cfg) (as : List Act) (s : State) (hr : Core.run (step c) init as = some s) :
     work c init as ≤ c.n * (40 * (c.len + 2) + 35) := by
   have := work_le c as init s (inv_init c) hr
@@ -146,6 +144,29 @@ theorem C10_no_wedge (c : Cfg) (s : State) (hr : Reachable c s) (hn : 0 < c.n) (
     ∃ as s', Core.run (step c) s as = some s' ∧ Final c s' := by
   obtain ⟨hi, h2⟩ := inv12_reachable c hn hr
   exact can_finish c hbs (mu c s) s hi h2 (Nat.le_refl _)
+
+/-- A reachable state in which no action at all is enabled is final: the model has no deadlock. -/
+theorem C10_deadlock_free (c : Cfg) (s : State) (hr : Reachable c s) (hn : 0 < c.n) (hbs : 2 ≤ c.bs)
+    (hdead : ∀ a, step c s a = none) : Final c s := by
+  apply Classical.byContradiction
+  intro hnf
+  obtain ⟨as, s', hne, _, hrun, _⟩ := C10_progress c s hr hn hbs hnf
+  cases as with
+  | nil => exact hne rfl
+  | cons a as => rw [Core.run_cons, hdead a] at hrun; simp at hrun
+
+/-- **No fork blocks forever** (fair termination).  An infinite execution `r : InfRun c` (any
+    sequence of states and actions from a reachable state with `step (σ i) (α i) = some (σ (i+1))`)
+    is never weakly fair, where weak fairness is: every action (fork, kind) that is enabled from some
+    point on forever is eventually taken.  So under a weakly fair scheduler — one that lets every
+    fork that can move eventually move; the timed-out `acquire(timeout=0.1)` is exactly what lets
+    a waiting fork re-read its loop condition instead of waiting on the lock unboundedly — every
+    execution is finite, and by `C10_deadlock_free` it ends with every fork ended.  The consumers
+    are part of the model: a fork between calls always has its `call` action enabled ("every fork
+    keeps being consumed").  Unfair infinite executions do exist (a fork that holds the lock is
+    never scheduled again while a peer retries its timed acquire forever). -/
+theorem C10_fair_termination (c : Cfg) (hn : 0 < c.n) (hbs : 2 ≤ c.bs) (r : InfRun c) : ¬ WeaklyFair c r :=
+  fair_terminates c hn hbs r
 
 /-! ## Non-vacuity: concrete schedules (recorded from runs of the real code, line-level
     preemption, 2 forks, `buffer_size = 2`) -/
